@@ -85,6 +85,8 @@ type Backend struct {
 	opStart, opEnd int
 	// QuiesceTimeouts: how often a pooled connection was still in use after the grace period
 	QuiesceTimeouts int
+	// leaked: pooled connections known never to come back
+	leaked int
 }
 
 var _ memstore.Backend = (*Backend)(nil)
@@ -263,13 +265,17 @@ func (b *Backend) Sequences(name string) (uint64, uint64) {
 // transaction back asynchronously when its context is cancelled).
 func (b *Backend) Quiesce() {
 	deadline := time.Now().Add(3 * time.Second)
-	for b.Srv.SQLDB().Stats().InUse > 0 && time.Now().Before(deadline) {
+	for b.Srv.SQLDB().Stats().InUse > b.leaked && time.Now().Before(deadline) {
 		time.Sleep(200 * time.Microsecond)
 	}
-	if b.Srv.SQLDB().Stats().InUse > 0 {
+	if n := b.Srv.SQLDB().Stats().InUse; n > b.leaked {
+		// a connection that never comes back: the code under test left a transaction open (e.g. a
+		// panic between BeginTX and Rollback). Reported by the handle-discipline predicate
+		// (transaction-not-closed); do not wait for it again.
 		b.QuiesceTimeouts++
+		b.leaked = n
 		if os.Getenv("VERIF_E2E_DEBUG") != "" {
-			fmt.Fprintf(os.Stderr, "wle2e: quiesce timeout (in use %d) trace=%v\n", b.Srv.SQLDB().Stats().InUse, b.trace)
+			fmt.Fprintf(os.Stderr, "wle2e: quiesce timeout (in use %d) trace=%v\n", n, b.trace)
 		}
 	}
 }
